@@ -385,6 +385,11 @@ def expected_layout(stub, k, platform, method):
 def expected_fallback(stub, k, platform, method):
     """Windows: documented fallbacks on a permission error of the first
     native call (values come from proc_info slots)."""
+    if platform == "sunos5":
+        # proc_cred refused -> real/effective ids from psinfo, saved = None
+        a = R(stub, k, "proc_basic_info")
+        return {"uids": (a[8], a[9], None),
+                "gids": (a[10], a[11], None)}.get(method)
     if platform != "win32":
         return None
     i = R(stub, k, "proc_info")
